@@ -10,7 +10,48 @@ def run(tier, seed):
             'early-stop time with probability 0.35, or delivers 0..N+2 suggestions, each followed by further calls of the same and '
             'other workers; RAM and in-memory SQLite; non-trivial = at least 3 successful calls'),
       pre=svcrun.regenerate_handler_sources,
-      monitors=[svcmon.c06_step, svcrun.wrap(svcmon.c01_step)], backends=('ram', 'sqlmem'), profile={'suggest': 0.45, 'fail': 0.35}, extra=early_stop_shapes)
+      monitors=[svcmon.c06_step, svcrun.wrap(svcmon.c01_step)], backends=('ram', 'sqlmem'), profile={'suggest': 0.45, 'fail': 0.35}, extra=lambda rep, tier, seed, known, r: _both(early_stop_shapes(rep, tier, seed, known, r), unusual_failures(rep, tier, seed, known, r)))
+
+
+def _both(a, b):
+  return (((a[0] or '') + ' ' + (b[0] or '')).strip() or None), (a[1] or b[1])
+
+
+def unusual_failures(rep, tier, seed, known, r):
+  """Failures that do not come from the algorithm's own code path: algorithm metadata for a trial id that is not a trial id (0),
+  and a Pythia endpoint that cannot be reached when an early-stopping check needs it.  Each must be reported and leave no
+  unfinished operation; later calls reach the algorithm again."""
+  from harness import svc, svcmon
+  concrete = False
+  seqs = [[('CreateStudy', 1, 1, False, 'SS_ACTIVE', [(1, True)]),
+           ('SuggestTrials', 1, 1, 1, 2, ('deliver', [5, 6], [], [(0, (':a', 'k', 0, 'v'))])),
+           ('SuggestTrials', 1, 1, 1, 1, ('deliver', [7], [], [])),
+           ('SuggestTrials', 1, 1, 2, 1, ('deliver', [8], [(':a', 'k', 0, 'v')], []))]]
+  broke, c1 = svcrun.service_part(rep, 'C06', r, tier, known, monitors=[svcmon.c06_step, svcrun.wrap(svcmon.c01_step)], backends=('ram', 'sqlmem'),
+                                  nseq_quick=1, nseq_thorough=1, tag='badid', seqgen=lambda rr: seqs[0])
+  # the Pythia service cannot be selected (an unreachable per-study endpoint): monitor only, no model
+  for be in ('ram', 'sqlmem'):
+    serv, holder, proxy = svc.make_servicer(be, recycle=True)
+    for rpc in [('CreateStudy', 1, 1, False, 'SS_ACTIVE', [(1, True)]), ('SuggestTrials', 1, 1, 1, 2, ('deliver', [5, 6], [], []))]:
+      svc.apply_rpc(serv, holder, rpc)
+    real = serv._select_pythia_service
+
+    def unreachable(endpoint):
+      raise TimeoutError('cannot reach the Pythia endpoint')
+    serv._select_pythia_service = unreachable
+    out1 = svc.apply_rpc(serv, holder, ('CheckEarlyStop', True, 1, 1, 1, ('decide', [(1, True)], [], [])))
+    serv._select_pythia_service = real
+    snap = svc.snapshot(serv)
+    c0 = holder.calls
+    out2 = svc.apply_rpc(serv, holder, ('CheckEarlyStop', True, 1, 1, 1, ('decide', [(1, True)], [], [])))
+    rep.case({'unreachable_pythia_endpoint': be, 'first': list(out1[:2]), 'second': list(out2[:2])}, True)
+    rep.count('unreachable_endpoint_' + be)
+    active = [e for _, n in svcmon.nodes_of(snap).items() for e in n['es'] if e['active']]
+    if out1[0] != 'Failed' or active or holder.calls == c0 or out2[0] != 'Done':
+      concrete = True
+      rep.violation('an early-stopping check that cannot reach its Pythia endpoint is not reported / leaves its operation ACTIVE / the next check does not reach the algorithm [%s]' % be,
+                    {'backend': be, 'first_check': list(out1), 'early_stopping_records_left_active': active, 'second_check': list(out2), 'second_check_reached_the_algorithm': holder.calls != c0})
+  return broke, (c1 or concrete)
 
 
 def early_stop_shapes(rep, tier, seed, known, r):
